@@ -72,6 +72,11 @@ EXTRA = {
     'permute_rev': (['any'], lambda E, o, s: E.tt.permute(o[0], list(reversed(range(len(o[0].N)))))),
     'qtt_to_tens_all': (['tt'], lambda E, o, s: o[0].qtt_to_tens([_prod(o[0].N)])),
     'ctor_dense': (['tt'], lambda E, o, s: E.tt.TT(E.stensor('dense', list(o[0].N)), eps=1e-3)),
+    'ctor_dense_reshaped': (['tt'], lambda E, o, s: E.tt.TT(E.stensor('dense', [_prod(o[0].N)]), list(o[0].N), eps=1e-3)),
+    'ctor_numpy': (['tt'], lambda E, o, s: E.tt.TT(E.stensor('dense', list(o[0].N)).numpy(), eps=1e-3)),
+    'ctor_numpy_reshaped': (['tt'], lambda E, o, s: E.tt.TT(E.stensor('dense', [_prod(o[0].N)]).numpy(), list(o[0].N), eps=1e-3)),
+    'ctor_numpy_merged': (['tt'], lambda E, o, s: E.tt.TT(E.stensor('dense', list(o[0].N)).numpy(), [_prod(o[0].N)], eps=1e-3)),
+    'ctor_numpy_ttm': (['ttm'], lambda E, o, s: E.tt.TT(E.stensor('dense', list(o[0].M) + list(o[0].N)).numpy(), [(m, n) for m, n in zip(o[0].M, o[0].N)], eps=1e-3)),
     'ctor_dense_ttm': (['ttm'], lambda E, o, s: E.tt.TT(E.stensor('dense', list(o[0].M) + list(o[0].N)), [(m, n) for m, n in zip(o[0].M, o[0].N)], eps=1e-3)),
     'dmrg_hadamard': (['tt', 'same'], lambda E, o, s: E.tt.dmrg_hadamard(o[0], o[1], eps=1e-3, nswp=2)),
     'dmrg_hadamard_guess': (['tt', 'same', 'same'], lambda E, o, s: E.tt.dmrg_hadamard(o[0], o[1], o[2], eps=1e-3, nswp=2)),
